@@ -192,14 +192,14 @@ def chargeBeneath (s : State) (ctx l : Id) : Nat :=
     | some o => if x ≠ l && (ancestors s.heap.length s x).contains ctx then charge o else 0
     | none => 0).sum
 
-/-- every `.memlimit` chunk carries exactly the charge of what is beneath its context -/
+/-- every `.memlimit` chunk (of a context) carries exactly the charge of what is beneath its context -/
 def acctOK (s : State) : Bool :=
   (ids s).all fun l => match s.get l with
     | some lo =>
       if isLimit lo then
         match lo.parent with
         | some ctx => lo.lcur == chargeBeneath s ctx l
-        | none => false
+        | none => true
       else true
     | none => true
 
